@@ -172,7 +172,7 @@ func cmdCheck(args []string) int {
 	nProof, nDischarged, nBounded, nBoundedOK, nVac, nVacOK := 0, 0, 0, 0, 0, 0
 	solverTime := 0.0
 	backends := map[string]int{}
-	var knownLines, violLines, undecided []string
+	knownLines, violLines, undecided := []string{}, []string{}, []string{}
 	funcs := []string{}
 	assumptions := map[string]bool{}
 	unmodelled := map[string]bool{}
@@ -311,12 +311,12 @@ func cmdCheck(args []string) int {
 		fmt.Println(l)
 	}
 	wall := time.Since(t0).Seconds()
-	var asm []string
+	asm := append([]string{}, trustedBase...)
 	for a := range assumptions {
 		asm = append(asm, a)
 	}
 	sort.Strings(asm)
-	var unm []string
+	unm := []string{}
 	for a := range unmodelled {
 		unm = append(unm, a)
 	}
@@ -395,8 +395,15 @@ func relFiles(e *Engine) []string {
 
 func round3(f float64) float64 { return float64(int(f*1000+0.5)) / 1000 }
 
+func outRoot() string {
+	if d := os.Getenv("VF_OUT"); d != "" {
+		return d
+	}
+	return verifRoot
+}
+
 func writeEvidence(pid string, ev map[string]any) error {
-	dir := filepath.Join(verifRoot, "evidence")
+	dir := filepath.Join(outRoot(), "evidence")
 	if err := os.MkdirAll(dir, 0o755); err != nil {
 		return err
 	}
@@ -408,7 +415,7 @@ func writeEvidence(pid string, ev map[string]any) error {
 }
 
 func writeReplayFile(pid, ob string, content map[string]any) string {
-	dir := filepath.Join(verifRoot, "replays", pid)
+	dir := filepath.Join(outRoot(), "replays", pid)
 	os.MkdirAll(dir, 0o755)
 	p := filepath.Join(dir, sanitize(ob)+".json")
 	content["property"] = pid
